@@ -50,6 +50,7 @@ type Chain struct {
 	DuringRescan func()
 
 	notifyCalls int
+	bestCalls   int
 	filterCalls int
 	Sent        []*wire.MsgTx // every tx handed to SendRawTransaction, in order
 	Mempool     map[chainhash.Hash]*wire.MsgTx
@@ -156,6 +157,7 @@ func (c *Chain) WaitForShutdown() {}
 func (c *Chain) GetBestBlock() (*chainhash.Hash, int32, error) {
 	c.mu.Lock()
 	defer c.mu.Unlock()
+	c.bestCalls++
 	h := c.best[len(c.best)-1].BlockHash()
 	return &h, int32(len(c.best) - 1), nil
 }
@@ -327,6 +329,9 @@ func (c *Chain) FilterBlocks(req *chain.FilterBlocksRequest) (*chain.FilterBlock
 	}
 	return nil, nil
 }
+
+// BestCalls counts GetBestBlock calls (a sync attempt makes a handful; a retry storm makes thousands).
+func (c *Chain) BestCalls() int { c.mu.Lock(); defer c.mu.Unlock(); return c.bestCalls }
 
 func (c *Chain) FilterCalls() int { c.mu.Lock(); defer c.mu.Unlock(); return c.filterCalls }
 
